@@ -39,6 +39,15 @@ def lim_steps(t):
     """yield (stimulus tuple, observation dict) for a limiter case"""
     i = 3
     n = len(t)
+
+    def obs(i):
+        fd, nwfd, nsp, na = t[i:i + 4]; i += 4
+        act = [(t[i + 2 * a], t[i + 2 * a + 1]) for a in range(na)]; i += 2 * na
+        nw = t[i]; i += 1
+        wp = [(t[i + 2 * a], t[i + 2 * a + 1]) for a in range(nw)]; i += 2 * nw
+        nd = t[i]; i += 1
+        dl = [tuple(t[i + 4 * a:i + 4 * a + 4]) for a in range(nd)]; i += 4 * nd
+        return i, {"fdConsuming": fd, "waitingOnFd": nwfd, "activePerPeer": act, "waitingOnPeer": wp, "inflight": dl}
     while i < n:
         k = t[i]
         if k == 1:
@@ -49,15 +58,19 @@ def lim_steps(t):
             st = ("clear", t[i + 1]); i += 2
         elif k == 4:
             st = ("return", t[i + 1]); i += 2
+        elif k == 5:
+            # the result of job jid (dialFunc returned earlier) finds no receiver; its context is cancelled:
+            # two trace entries, as in SpecLimiter.decode_ltrace
+            jid, g = t[i + 1], t[i + 2]
+            i, o1 = obs(i + 3)
+            yield ("cancel", g, "while-the-finished-attempt-of-job-%d-is-delivering-its-result-to-nobody" % jid), o1
+            i, o2 = obs(i)
+            yield ("return", jid, "result-dropped"), o2
+            continue
         else:
             return
-        fd, nwfd, nsp, na = t[i:i + 4]; i += 4
-        act = [(t[i + 2 * a], t[i + 2 * a + 1]) for a in range(na)]; i += 2 * na
-        nw = t[i]; i += 1
-        wp = [(t[i + 2 * a], t[i + 2 * a + 1]) for a in range(nw)]; i += 2 * nw
-        nd = t[i]; i += 1
-        dl = [tuple(t[i + 4 * a:i + 4 * a + 4]) for a in range(nd)]; i += 4 * nd
-        yield st, {"fdConsuming": fd, "waitingOnFd": nwfd, "activePerPeer": act, "waitingOnPeer": wp, "inflight": dl}
+        i, o = obs(i)
+        yield st, o
 
 
 def w_steps(t):
@@ -115,6 +128,9 @@ def d_steps(t):
             st = ("gater-parks-next-request-handling",); i += 1
         elif k == 7:
             st = ("gater-releases",); i += 1
+        elif k == 8:
+            st = ("deadline-passes-for-caller", t[i + 1], "dial_timeout_ns=%d" % t[i + 2],
+                  ("caller_ctx_deadline_ns_after_call=%d" % t[i + 3]) if t[i + 3] >= 0 else "caller_ctx_without_deadline"); i += 4
         else:
             return
         nr = t[i]; i += 1
@@ -140,6 +156,8 @@ def canon_d(t, upto):
             out.append("end%d.%s" % (st[1], st[2]))
         elif k == "cancel-caller":
             out.append("cancel%d" % st[1])
+        elif k == "deadline-passes-for-caller":
+            out.append("deadline%d.%s.%s" % (st[1], st[2], st[3]))
         elif k == "backoff":
             out.append("bo%d" % st[1])
         elif k.startswith("gater-parks"):
@@ -295,7 +313,7 @@ def canon_lim(t, upto):
         if st[0] == "add":
             out.append("a%d.p%d.%s.g%d" % (r("j", st[1]), r("p", st[2]), "fd" if st[3] else "nofd", r("g", st[4])))
         elif st[0] == "cancel":
-            out.append("c.g%d" % r("g", st[1]))
+            out.append("c.g%d%s" % (r("g", st[1]), ".held" if len(st) > 2 else ""))
         elif st[0] == "clear":
             out.append("x.p%d" % r("p", st[1]))
         else:
@@ -303,7 +321,7 @@ def canon_lim(t, upto):
     return " ".join(out)
 
 
-DCLAUSE = {1: "return-not-exactly-once/wrong-peer/unjustified-conn", 2: "cancelled-caller-not-released", 3: "address-handed-to-transport-twice",
+DCLAUSE = {1: "return-not-exactly-once/wrong-peer/unjustified-conn", 2: "caller-not-released-when-its-context-was-cancelled-or-its-deadline-or-dial-timeout-passed", 3: "address-handed-to-transport-twice",
            4: "caps", 5: "cancel-of-one-caller-ended-shared-dials", 6: "residue-after-all-returned", 7: "caller-count",
            8: "caller-never-returned", 9: "caller-waits-with-no-dial-in-flight(eligible-address-never-attempted)",
            10: "address-list-handed-to-worker-names-an-address-twice(modulo-/p2p-suffix)",
